@@ -190,6 +190,37 @@ def build() -> Check:
           f"{sorted(g_cls or [])} are unset: with only min_successful configured a failed branch stops the operation and the result "
           "[FAILED, STARTED, ...] is classified ALL_COMPLETED")
 
+    # R5 the policy decision has priority over suspension ----------------------------------------------
+    from sa.protocol import done_callback_traces
+    fn_dc, dtr = done_callback_traces(pm)
+    bad = []
+    n_dec = 0
+    for t in dtr:
+        d = dict(t.pc)
+        sc_dec = d.get("counters.should_complete()")
+        susp = [e for e in t.events if e.kind == "SETATTR" and e.data["attr"] == "_suspend_exception"]
+        done_set = t.kinds("COMPLETION_SET")
+        res = [e for e in t.events if e.kind == "RESULT"]
+        oc = res[0].data["outcome"] if res else "cancelled"
+        if oc in ("BackgroundThreadError", "OrphanedChildException", "cancelled") or t.outcome == "raise":
+            continue  # not branch outcomes: fatal error, orphan, or a future cancelled after the operation was already decided
+        n_dec += 1
+        if sc_dec is None:
+            bad.append((f"a branch ends ({oc}) and the completion policy is not consulted", t))
+        elif sc_dec is True:
+            if not done_set:
+                bad.append((f"the policy is decided when a branch ends ({oc}) but the waiting call is not released", t))
+            if susp:
+                bad.append((f"the policy is decided when a branch ends ({oc}) yet a suspension is raised instead of returning the batch result", t))
+        else:
+            if susp and d.get("should_execution_suspend()") is not True:
+                bad.append(("a suspension is recorded although the suspend decision said no", t))
+            if done_set and not susp:
+                bad.append(("the waiting call is released although the policy is undecided and nothing suspends", t))
+    ck.floor("branch_end_decisions", n_dec, 6)
+    ck.ob("R5.policy-decision-before-suspension", fn_construct(fn_dc), not bad,
+          (bad[0][0] + " | " + "; ".join(f"{k}->{v}" for k, v in bad[0][1].pc)) if bad else f"{n_dec} branch-end paths")
+
     # R4 the wait can end ----------------------------------------------------------------------------
     def self_factory(it, state):
         o = Obj(cex, label="cexec")
